@@ -18,83 +18,371 @@ Section Fresh.
   Hypothesis h0_parent : lh_parent h0 = None.
   Hypothesis h0_fresh : lh_gens h0 = [].
 
-  (* a record as the first generation writes it for a file with content c: only `original` entries, each the digest
-     of c in its own format, no previous path *)
-  Definition good_entry (c : bytes) (e : entry) : Prop := e_action e = Some Original /\ e_digest e = digest_text Hb (e_fmt e) c.
+  (* records as the first generation writes them: no previous path; every `original` entry is the digest, in its own
+     format, of a content the traversal saw under that path *)
   Definition good_rec (F : list (path * bytes)) (r : record) : Prop :=
     r_prev r = None /\
-    (r_dir r = false -> r_entries r <> [] /\ forall e, In e (r_entries r) -> exists c, In (r_path r, c) F /\ good_entry c e).
+    forall e, In e (r_entries r) -> is_original e = true -> exists c, In (r_path r, c) F /\ e_digest e = digest_text Hb (e_fmt e) c.
+  (* every file the traversal saw has a record holding an `original` entry *)
+  Definition covered (F : list (path * bytes)) (rs : list record) : Prop :=
+    forall p c, In (p, c) F -> exists r e, In r rs /\ r_path r = p /\ In e (r_entries r) /\ is_original e = true.
 
   Lemma good_rec_mono F F' r : (forall x, In x F -> In x F') -> good_rec F r -> good_rec F' r.
   Proof.
-    intros Hsub [Hp Hd]. split; [exact Hp|]. intros Hdir. destruct (Hd Hdir) as [Hne He]. split; [exact Hne|].
-    intros e Hin. destruct (He e Hin) as [c [Hc Hg]]. exists c. split; [apply Hsub; exact Hc|exact Hg].
+    intros Hsub [Hp He]. split; [exact Hp|]. intros e Hin Ho. destruct (He e Hin Ho) as [c [Hc Hd]]. exists c. split; [apply Hsub; exact Hc|exact Hd].
   Qed.
 
   Lemma add_entries_good F rs p d sz es :
-    Forall (good_rec F) rs -> good_rec F (mkRecord p d sz es None) ->
-    (forall r, In r rs -> r_path r = p -> good_rec F (mkRecord (r_path r) (r_dir r || d) (r_size r) (r_entries r ++ es) (r_prev r))) ->
-    Forall (good_rec F) (add_entries rs p d sz es).
+    Forall (good_rec F) rs -> good_rec F (mkRecord p d sz es None) -> Forall (good_rec F) (add_entries rs p d sz es).
   Proof.
-    intros Hrs Hnew Hmerge. induction rs as [|r rs IH]; cbn [add_entries]; [constructor; [exact Hnew|constructor]|].
-    inversion Hrs as [|? ? Hr Hrs']; subst.
+    intros Hrs [_ Hnew]. induction rs as [|r rs IH]; cbn [add_entries]; [constructor; [split; [reflexivity|exact Hnew]|constructor]|].
+    inversion Hrs as [|? ? [Hrp Hre] Hrs']; subst.
     destruct (path_eqb_spec (r_path r) p) as [E|E].
-    - constructor; [apply Hmerge; [left; reflexivity|exact E]|exact Hrs'].
-    - constructor; [exact Hr|]. apply IH; [exact Hrs'|]. intros r' Hin. apply Hmerge. right. exact Hin.
+    - constructor; [|exact Hrs']. split; [exact Hrp|]. cbn [r_entries r_path]. intros e Hin Ho.
+      apply in_app_or in Hin. destruct Hin as [Hin|Hin]; [apply Hre; assumption|]. rewrite E. apply Hnew; assumption.
+    - constructor; [split; assumption|]. apply IH. exact Hrs'.
+  Qed.
+  Lemma add_entries_covered F rs p d sz es :
+    covered F rs -> covered F (add_entries rs p d sz es).
+  Proof.
+    intros Hc q c Hin. destruct (Hc q c Hin) as [r [e [Hr [Hp [He Ho]]]]]. clear Hc.
+    induction rs as [|r0 rs IH]; [destruct Hr|]. cbn [add_entries]. destruct (path_eqb_spec (r_path r0) p) as [E|E].
+    - destruct Hr as [->|Hr].
+      + eexists. exists e. split; [left; reflexivity|]. cbn [r_path r_entries]. repeat split; auto. apply in_or_app. left. exact He.
+      + exists r, e. split; [right; exact Hr|auto].
+    - destruct Hr as [->|Hr].
+      + exists r, e. split; [left; reflexivity|auto].
+      + destruct (IH Hr) as [r' [e' [H1 H2]]]. exists r', e'. split; [right; exact H1|exact H2].
+  Qed.
+  Lemma add_entries_covers_new F rs p c d sz es e0 :
+    In e0 es -> is_original e0 = true -> covered F rs -> covered ((p, c) :: F) (add_entries rs p d sz es).
+  Proof.
+    intros He0 Ho0 Hc q c' [E|Hin].
+    - injection E as <- <-. destruct (add_entries_record rs p d sz es) as [r [H1 [H2 [_ H4]]]].
+      exists r, e0. repeat split; auto.
+    - apply (add_entries_covered F rs p d sz es Hc q c' Hin).
   Qed.
 
-  Lemma seal_fresh_good fmts p c e :
-    In e (fst (seal (lh_gens h0) p (fun f => digest_text Hb f c) fmts)) -> good_entry c e.
+  Lemma seal_fresh_entries fmts p c e :
+    In e (fst (seal (lh_gens h0) p (fun f => digest_text Hb f c) fmts)) ->
+    is_original e = true /\ e_digest e = digest_text Hb (e_fmt e) c.
   Proof.
     intros H. split.
-    - apply (seal_original_iff _ _ _ _ _ H). rewrite h0_fresh. reflexivity.
+    - unfold is_original. rewrite (proj2 (seal_original_iff _ _ _ _ _ H)); [reflexivity|]. rewrite h0_fresh. reflexivity.
     - apply (seal_digest _ _ _ _ _ H).
   Qed.
 
-  (* the session after any prefix of the traversal: all records good w.r.t. the file events processed so far *)
-  Lemma process_event_good fmts no_dh spec t s fails F e :
-    fmts <> [] -> Forall (good_rec F) (recs s) ->
-    let '(s', _) := process_event Hb matches C [h0] fmts no_dh spec t (s, fails) e in
-    Forall (good_rec (match e with EvFile p c => (p, c) :: F | _ => F end)) (recs s').
+  Lemma opt_all_In {A} : forall (l : list (option A)) xs x, opt_all l = Some xs -> In x xs -> In (Some x) l.
   Proof.
-    intros Hf Hg. destruct e as [p c|p kids]; cbn [process_event].
+    induction l as [|o l IH]; intros xs x H Hin.
+    - cbn in H. injection H as <-. destruct Hin.
+    - change (opt_all (o :: l)) with (match o, opt_all l with Some a, Some r => Some (a :: r) | _, _ => None end) in H.
+      destruct o as [a|]; [|discriminate]. destruct (opt_all l) as [r|] eqn:E; [|discriminate]. injection H as <-.
+      destruct Hin as [->|Hin]; [left; reflexivity|right; eapply IH; eauto].
+  Qed.
+  Lemma dir_entries_not_original no_dh spec fmts p t es e :
+    dir_entries Hb matches C no_dh spec fmts p t = Some es -> In e es -> is_original e = false.
+  Proof.
+    unfold dir_entries. destruct no_dh; [intros [= <-] []|]. intros H Hin.
+    apply (opt_all_In _ _ _ H) in Hin. apply in_map_iff in Hin. destruct Hin as [f [Hf _]].
+    destruct (get C t p) as [d|]; [|discriminate]. destruct (dirhash Hb matches C spec f p d) as [cs|]; [|discriminate].
+    injection Hf as <-. reflexivity.
+  Qed.
+
+  (* the session after any prefix of the traversal *)
+  Lemma process_event_good fmts no_dh spec t s fails F e :
+    fmts <> [] -> Forall (good_rec F) (recs s) -> covered F (recs s) ->
+    (match e with EvFile p _ => p <> [] | EvDir _ _ => True end) ->
+    let '(s', _) := process_event Hb matches C [h0] fmts no_dh spec t (s, fails) e in
+    Forall (good_rec (match e with EvFile p c => (p, c) :: F | _ => F end)) (recs s') /\
+    covered (match e with EvFile p c => (p, c) :: F | _ => F end) (recs s').
+  Proof.
+    intros Hf Hg Hc Hne. destruct e as [p c|p kids]; cbn [process_event].
     - unfold seal_file. rewrite (route_flat h0), h0_root. cbn [strip_prefix].
       assert (Hsp : strip_prefix [] p = p) by (destruct p; reflexivity). rewrite ?Hsp.
       destruct (seal (lh_gens h0) p (fun f => digest_text Hb f c) fmts) as [es res] eqn:Es.
-      assert (Hes : forall e, In e es -> good_entry c e).
-      { intros e He. apply (seal_fresh_good fmts p c). rewrite Es. exact He. }
+      assert (Hes : forall e, In e es -> is_original e = true /\ e_digest e = digest_text Hb (e_fmt e) c).
+      { intros e He. apply (seal_fresh_entries fmts p c). rewrite Es. exact He. }
+      assert (Hne' : es <> []).
+      { replace es with (fst (seal (lh_gens h0) p (fun f => digest_text Hb f c) fmts)) by (rewrite Es; reflexivity). apply seal_nonempty. exact Hf. }
       assert (Hmono : Forall (good_rec ((p, c) :: F)) (recs s)).
       { eapply Forall_impl; [|exact Hg]. intros r. apply good_rec_mono. intros x Hx. right. exact Hx. }
-      destruct es as [|e0 es']; [exact Hmono|].
-      rewrite recs_sess_add. destruct p as [|n p']; [exact Hmono|].
-      apply add_entries_good; [exact Hmono| |].
-      + split; [reflexivity|]. intros _. cbn [r_entries r_path]. split; [discriminate|].
-        intros e He. exists c. split; [left; reflexivity|apply Hes; exact He].
-      + intros r Hin Hp. rewrite Forall_forall in Hmono. destruct (Hmono r Hin) as [Hprev Hd]. split; [exact Hprev|].
-        cbn [r_dir r_entries r_path]. rewrite orb_false_r. intros Hdir. destruct (Hd Hdir) as [Hne Hall]. split.
-        * destruct (r_entries r); [congruence|discriminate].
-        * intros e He. apply in_app_or in He. destruct He as [He|He]; [apply Hall; exact He|].
-          exists c. split; [rewrite Hp; left; reflexivity|apply Hes; exact He].
+      destruct es as [|e0 es']; [congruence|].
+      rewrite recs_sess_add. destruct p as [|n p']; [congruence|]. split.
+      + apply add_entries_good; [exact Hmono|]. split; [reflexivity|]. cbn [r_entries r_path].
+        intros e He _. exists c. split; [left; reflexivity|apply Hes; exact He].
+      + apply (add_entries_covers_new F (recs s) (n :: p') c false _ (e0 :: es') e0); [left; reflexivity|apply Hes; left; reflexivity|exact Hc].
     - unfold record_dir. rewrite (route_flat h0), h0_root, h0_parent.
       assert (Hsp : strip_prefix [] p = p) by (destruct p; reflexivity). rewrite ?Hsp.
       assert (Hsame : forall es, match p with [] => sess_add s [] p true None es | _ :: _ => sess_add s [] p true None es end = sess_add s [] p true None es) by (intros; destruct p; reflexivity).
-      rewrite Hsame, recs_sess_add. destruct p as [|n p']; [exact Hg|].
-      apply add_entries_good; [exact Hg| |].
-      + split; [reflexivity|]. cbn [r_dir]. discriminate.
-      + intros r Hin Hp. rewrite Forall_forall in Hg. destruct (Hg r Hin) as [Hprev _]. split; [exact Hprev|].
-        cbn [r_dir]. rewrite orb_true_r. discriminate.
+      rewrite Hsame, recs_sess_add. destruct p as [|n p']; [split; assumption|]. split.
+      + apply add_entries_good; [exact Hg|]. split; [reflexivity|]. cbn [r_entries r_path]. intros e He Ho.
+        destruct (dir_entries Hb matches C no_dh spec fmts (n :: p') t) as [es|] eqn:Ed; [|destruct He].
+        rewrite (dir_entries_not_original _ _ _ _ _ _ _ Ed He) in Ho. discriminate.
+      + apply add_entries_covered. exact Hc.
   Qed.
 
   Lemma fold_events_good fmts no_dh spec t : fmts <> [] -> forall evs s fails F,
-    Forall (good_rec F) (recs s) ->
+    Forall (good_rec F) (recs s) -> covered F (recs s) -> (forall q, In q (files_of evs) -> q <> []) ->
     exists F', Forall (good_rec F') (recs (fst (fold_left (process_event Hb matches C [h0] fmts no_dh spec t) evs (s, fails)))) /\
+               covered F' (recs (fst (fold_left (process_event Hb matches C [h0] fmts no_dh spec t) evs (s, fails)))) /\
                forall x, In x F' <-> In x (ev_files evs) \/ In x F.
   Proof.
-    intros Hf. induction evs as [|e evs IH]; intros s fails F Hg; cbn [fold_left].
-    - exists F. split; [exact Hg|]. intros x. cbn. tauto.
-    - pose proof (process_event_good fmts no_dh spec t s fails F e Hf Hg) as Hstep.
-      destruct (process_event Hb matches C [h0] fmts no_dh spec t (s, fails) e) as [s1 f1].
-      destruct (IH s1 f1 _ Hstep) as [F' [H1 H2]]. exists F'. split; [exact H1|].
-      intros x. rewrite H2. destruct e as [p c|p k]; cbn [ev_files flat_map app In]; tauto.
+    intros Hf. induction evs as [|e evs IH]; intros s fails F Hg Hc Hne; cbn [fold_left].
+    - exists F. split; [exact Hg|]. split; [exact Hc|]. intros x. cbn. tauto.
+    - assert (He : match e with EvFile p _ => p <> [] | EvDir _ _ => True end).
+      { destruct e as [p c|]; [|exact I]. apply Hne. cbn. left. reflexivity. }
+      pose proof (process_event_good fmts no_dh spec t s fails F e Hf Hg Hc He) as Hstep.
+      destruct (process_event Hb matches C [h0] fmts no_dh spec t (s, fails) e) as [s1 f1]. destruct Hstep as [Hg1 Hc1].
+      destruct (IH s1 f1 _ Hg1 Hc1) as [F' [H1 [H2 H3]]].
+      { intros q Hq. apply Hne. destruct e; cbn; [right|]; exact Hq. }
+      exists F'. split; [exact H1|]. split; [exact H2|].
+      intros x. rewrite H3. destruct e as [p c|p k]; cbn [ev_files flat_map app In]; tauto.
+  Qed.
+
+  (* validation and read-back keep these facts *)
+  Lemma is_original_promote e : is_original (promote e) = is_original e.
+  Proof. unfold is_original. rewrite promote_action. destruct (e_action e) as [[]|]; reflexivity. Qed.
+  Lemma validate_records_Forall2 : forall rs rs', validate_records rs = Some rs' ->
+    Forall2 (fun r r' => validate_record r = Some r') rs rs'.
+  Proof.
+    induction rs as [|r rs IH]; intros rs' H; cbn in H; [injection H as <-; constructor|].
+    destruct (validate_record r) as [r'|] eqn:Er; [|discriminate]. destruct (validate_records rs) as [rest|]; [|discriminate].
+    injection H as <-. constructor; [exact Er|apply IH; reflexivity].
+  Qed.
+  Lemma validate_record_good F r r' : validate_record r = Some r' -> good_rec F r -> good_rec F r'.
+  Proof.
+    intros Er [Hrp Hre]. apply validate_record_ok in Er. destruct Er as [Ep [_ [_ [Epr [Ees _]]]]].
+    split; [rewrite Epr; exact Hrp|]. rewrite Ees, Ep. intros e Hin Ho. apply in_map_iff in Hin. destruct Hin as [e1 [<- Hin]].
+    rewrite is_original_promote in Ho. rewrite promote_digest, promote_fmt. apply Hre; assumption.
+  Qed.
+  Lemma validate_good F rs rs' : validate_records rs = Some rs' ->
+    Forall (good_rec F) rs -> covered F rs -> Forall (good_rec F) rs' /\ covered F rs'.
+  Proof.
+    intros H Hg Hc. apply validate_records_Forall2 in H. split.
+    - clear Hc. induction H as [|r r' rs rs' Hr H IH]; [constructor|]. inversion Hg; subst. constructor; [eapply validate_record_good; eauto|apply IH; assumption].
+    - intros p c Hin. destruct (Hc p c Hin) as [r [e [Hr [Hp [He Ho]]]]]. clear Hc Hg.
+      induction H as [|r0 r0' rs rs' Hv H IH]; [destruct Hr|]. destruct Hr as [->|Hr].
+      + apply validate_record_ok in Hv. destruct Hv as [Ep [_ [_ [_ [Ees _]]]]].
+        exists r0', (promote e). split; [left; reflexivity|]. rewrite Ep, Ees. repeat split; auto; [apply in_map; exact He|rewrite is_original_promote; exact Ho].
+      + destruct (IH Hr) as [r1 [e1 [H1 H2]]]. exists r1, e1. split; [right; exact H1|exact H2].
+  Qed.
+  Lemma readback_good F rs : Forall (good_rec F) rs -> covered F rs ->
+    Forall (good_rec F) (map readback_record rs) /\ covered F (map readback_record rs).
+  Proof.
+    intros Hg Hc.
+    assert (Hin : forall r e, In e (r_entries (readback_record r)) <-> In e (r_entries r)).
+    { intros r e. unfold readback_record. destruct (r_dir r); [tauto|]. cbn [r_entries]. apply sort_In. }
+    assert (Hp : forall r, r_path (readback_record r) = r_path r /\ r_prev (readback_record r) = r_prev r).
+    { intros r. unfold readback_record. destruct (r_dir r); split; reflexivity. }
+    split.
+    - apply Forall_forall. intros r' Hr'. apply in_map_iff in Hr'. destruct Hr' as [r [<- Hr]]. rewrite Forall_forall in Hg.
+      destruct (Hg r Hr) as [H1 H2]. destruct (Hp r) as [E1 E2]. split; [rewrite E2; exact H1|]. rewrite E1. intros e He Ho. apply H2; [apply Hin; exact He|exact Ho].
+    - intros p c Hpc. destruct (Hc p c Hpc) as [r [e [Hr [Hrp [He Ho]]]]]. exists (readback_record r), e.
+      split; [apply in_map; exact Hr|]. destruct (Hp r) as [E1 _]. rewrite E1. repeat split; auto. apply Hin. exact He.
   Qed.
 End Fresh.
+
+(* ---- in a well-formed tree a file event carries the content found at its path ---- *)
+Section FilesAt.
+  Variable matches : list text -> text -> bool.
+  Variable C : Type.
+  Notation node := (node C).
+  Notation events := (events matches C).
+
+  Lemma lookup_kid_In n k (kids : list (text * node)) : NoDup (map fst kids) -> In (n, k) kids -> lookup_kid C n kids = Some k.
+  Proof.
+    induction kids as [|[m k0] ks IH]; intros Hn Hin; [destruct Hin|]. cbn in Hn. inversion Hn as [|? ? Hm Hn']; subst.
+    cbn [lookup_kid]. destruct Hin as [E|Hin].
+    - injection E as -> ->. rewrite text_eqb_refl. reflexivity.
+    - destruct (text_eqb_spec n m) as [->|Hne]; [exfalso; apply Hm; apply in_map_iff; exists (m, k); auto|apply IH; auto].
+  Qed.
+
+  Lemma ev_files_dir spec p h kids q c :
+    In (q, c) (ev_files (events spec p (Dir h kids))) <->
+    (exists x, In x (vis_of matches C spec p kids) /\ In (q, c) (ev_files (sub_evs C x))) \/
+    (exists x, In x (vis_of matches C spec p kids) /\ fst (snd x) = File c /\ q = p ++ [fst x]).
+  Proof.
+    rewrite (events_dir' matches C). unfold ev_files. rewrite !flat_map_app, !in_app_iff. cbn [flat_map app In]. split.
+    - intros [H|[H|[]]].
+      + left. apply in_flat_map in H. destruct H as [e [He H]]. apply in_flat_map in He. destruct He as [x [Hx He]].
+        exists x. split; [exact Hx|]. apply in_flat_map. exists e. auto.
+      + right. apply in_flat_map in H. destruct H as [e [He H]]. apply in_flat_map in He. destruct He as [x [Hx He]].
+        destruct (fst (snd x)) as [c0|] eqn:E; [|destruct He]. destruct He as [<-|[]]. cbn in H. destruct H as [H|[]]. injection H as <- <-.
+        exists x. auto.
+    - intros [[x [Hx H]]|[x [Hx [E ->]]]].
+      + left. apply in_flat_map in H. destruct H as [e [He H]]. apply in_flat_map. exists e. split; [|exact H].
+        apply in_flat_map. exists x. auto.
+      + right. left. apply in_flat_map. exists (EvFile (p ++ [fst x]) c). split; [|left; reflexivity].
+        apply in_flat_map. exists x. split; [exact Hx|]. rewrite E. left. reflexivity.
+  Qed.
+
+  Theorem ev_files_get spec : forall t p q c, wf_tree C t -> In (q, c) (ev_files (events spec p t)) ->
+    exists rel, q = p ++ rel /\ get C t rel = Some (File c).
+  Proof.
+    induction t as [c0|h kids IH] using node_ind'; intros p q c Hw H; [destruct H|].
+    inversion Hw as [|? ? Hnames Hkids]; subst.
+    apply ev_files_dir in H.
+    assert (Hx : forall x, In x (vis_of matches C spec p kids) -> In (fst x, fst (snd x)) kids /\ snd (snd x) = events spec (p ++ [fst x]) (fst (snd x))).
+    { intros x Hin. unfold vis_of in Hin. apply filter_In in Hin. destruct Hin as [Hin _]. apply sort_In in Hin.
+      unfold subs in Hin. apply in_map_iff in Hin. destruct Hin as [nk [<- Hin]]. cbn [fst snd]. destruct nk; auto. }
+    destruct H as [[x [Hin H]]|[x [Hin [E ->]]]].
+    - destruct (Hx x Hin) as [Hk Hs]. unfold sub_evs in H. destruct (fst (snd x)) as [c1|h1 k1] eqn:E; [destruct H|].
+      rewrite Hs in H. rewrite Forall_forall in IH, Hkids.
+      destruct (IH (fst x, Dir h1 k1) Hk (p ++ [fst x]) q c (Hkids _ Hk) H) as [rel [-> Hg]].
+      exists (fst x :: rel). split; [rewrite <- app_assoc; reflexivity|]. cbn [get]. rewrite (lookup_kid_In _ _ _ Hnames Hk). exact Hg.
+    - destruct (Hx x Hin) as [Hk _]. rewrite E in Hk. exists [fst x]. split; [reflexivity|]. cbn [get]. rewrite (lookup_kid_In _ _ _ Hnames Hk). reflexivity.
+  Qed.
+  Corollary ev_files_functional spec t q c c' : wf_tree C t ->
+    In (q, c) (ev_files (events spec [] t)) -> In (q, c') (ev_files (events spec [] t)) -> c = c'.
+  Proof.
+    intros Hw H1 H2. destruct (ev_files_get spec t [] q c Hw H1) as [r1 [E1 G1]]. destruct (ev_files_get spec t [] q c' Hw H2) as [r2 [E2 G2]].
+    cbn in E1, E2. subst. congruence.
+  Qed.
+End FilesAt.
+
+(* ---- the main statement ---- *)
+Section FreshMain.
+  Variable Hb : fmt -> bytes -> bytes.
+  Variable matches : list text -> text -> bool.
+  Variable C : Type.
+  Variable cdig : C -> text.
+  Variable ser : gen -> C.
+  Notation node := (node C).
+  Notation events := (events matches C).
+
+  Lemma events_ignore_history spec p h h' kids : events spec p (Dir h kids) = events spec p (Dir h' kids).
+  Proof. rewrite !events_dir. reflexivity. Qed.
+  Lemma visited_reported evs : visited evs = map fst (reported evs).
+  Proof.
+    unfold visited, reported. induction evs as [|e evs IH]; [reflexivity|]. cbn [flat_map]. rewrite map_app, IH.
+    destruct e; reflexivity.
+  Qed.
+  Lemma find_last_unique (f : record -> bool) : forall rs r, In r rs -> f r = true ->
+    (forall r', In r' rs -> f r' = true -> r' = r) -> find_last f rs = Some r.
+  Proof.
+    induction rs as [|r0 rs IH]; intros r Hin Hf Hu; [destruct Hin|]. cbn [find_last].
+    destruct (find_last f rs) as [y|] eqn:E.
+    - f_equal. assert (Hy : In y rs /\ f y = true).
+      { clear -E. revert y E. induction rs as [|a rs IH]; intros y E; [discriminate|]. cbn in E.
+        destruct (find_last f rs) as [z|] eqn:Ez; [injection E as <-; destruct (IH z eq_refl); split; [right|]; assumption|].
+        destruct (f a) eqn:Ea; [injection E as <-; split; [left; reflexivity|exact Ea]|discriminate]. }
+      apply Hu; [right; tauto|tauto].
+    - destruct Hin as [->|Hin]; [rewrite Hf; reflexivity|].
+      exfalso. clear -E Hin Hf. induction rs as [|a rs IH]; [destruct Hin|]. cbn in E.
+      destruct (find_last f rs); [discriminate|]. destruct Hin as [->|Hin]; [rewrite Hf in E; discriminate|]. destruct (f a); [discriminate|]. auto.
+  Qed.
+
+  (* C03, base case: seal a well-formed tree that has no history anywhere, then verify / diff the untouched result: exit 0,
+     nothing reported -- for every format request, -n or not, every pattern list, matcher and hash primitive *)
+  Theorem fresh_create_then_verify kids h0 req no_dh ip ifl :
+    wf_tree C (Dir None kids) -> load C cdig (Dir None kids) = inl [h0] -> req <> [] ->
+    let run := create_folder Hb matches C cdig ser (Dir None kids) req no_dh false ip ifl in
+    o_outcome (snd run) <> Abort ->
+    verify_result Hb matches C cdig false (fst run) [] [] = Some (mkVR 0 [] [] []) /\
+    verify_result Hb matches C cdig true (fst run) [] [] = Some (mkVR 0 [] [] []).
+  Proof.
+    intros Hwf Hl Hreq. cbn zeta. intros Hout.
+    (* the loaded history of a tree without ascmhl folders *)
+    pose proof Hl as Hl0. rewrite load_dir in Hl0. cbn in Hl0.
+    destruct (combine_results (sort name_leb (kid_results C cdig [] [] kids))) as [below|e] eqn:Ec; [|discriminate].
+    assert (Hb0 : below = [] /\ h0 = lhist_of C [] None None).
+    { destruct below as [|b0 b1]; cbn in Hl0; [injection Hl0 as <-; auto|]. injection Hl0 as _ H. destruct b1; discriminate. }
+    destruct Hb0 as [-> Eh0]. clear Hl0.
+    assert (h0_root : lh_root h0 = []) by (rewrite Eh0; reflexivity).
+    assert (h0_parent : lh_parent h0 = None) by (rewrite Eh0; reflexivity).
+    assert (h0_fresh : lh_gens h0 = []) by (rewrite Eh0; reflexivity).
+    assert (h0_chain : lh_chain h0 = []) by (rewrite Eh0; reflexivity).
+    set (t := Dir None kids) in *.
+    destruct (create_flat_shape Hb matches C cdig ser h0 h0_root h0_parent t req no_dh ip ifl Hl eq_refl Hreq Hout)
+      as [sess [recs0 [Esess [Hv [Hw Ht]]]]].
+    set (spec := set_patterns (latest_patterns (lh_gens h0)) ip (pattern_file_lines ifl)) in *.
+    set (evs := events spec [] t) in *.
+    set (doc := new_doc InPlace (sess_list sess []) recs0 spec [] h0) in *.
+    (* the records of the session, validated and read back *)
+    destruct (fold_events_good Hb matches C h0 h0_root h0_parent h0_fresh (sort_fmts req) no_dh spec t (sort_fmts_nonempty req Hreq) evs [] 0 [])
+      as [F' [Hg0 [Hc0 HF]]].
+    { constructor. } { intros p c []. } { intros q Hq. eapply files_nonempty. exact Hq. }
+    assert (Hg1 : Forall (good_rec Hb F') (recs sess)) by (rewrite Esess; exact Hg0).
+    assert (Hc1 : covered F' (recs sess)) by (rewrite Esess; exact Hc0).
+    destruct (validate_good Hb F' _ _ Hv Hg1 Hc1) as [Hg2 Hc2].
+    destruct (readback_good Hb F' recs0 Hg2 Hc2) as [Hg Hc].
+    assert (Hrecs : g_records doc = map readback_record recs0) by reflexivity.
+    assert (HF' : forall x, In x F' <-> In x (ev_files evs)) by (intros x; rewrite HF; cbn; tauto).
+    (* paths of the records *)
+    destruct (fold_events_inv Hb matches C h0 h0_root h0_parent (sort_fmts req) no_dh spec t (sort_fmts_nonempty req Hreq) evs [] 0 [] [])
+      as [Fp [Dp [[Hn0 Hi0] [HFp HDp]]]].
+    { split; [constructor|]. intros q. cbn. tauto. } { intros q Hq. eapply files_nonempty. exact Hq. }
+    assert (Hnd : NoDup (map r_path (g_records doc))).
+    { rewrite Hrecs, readback_paths, (validate_records_paths _ _ Hv), Esess. exact Hn0. }
+    assert (Hpaths : forall q, In q (map r_path (g_records doc)) -> In q (visited evs)).
+    { intros q Hq. rewrite Hrecs, readback_paths, (validate_records_paths _ _ Hv), Esess in Hq. apply Hi0 in Hq.
+      rewrite visited_reported.
+      pose proof (reported_are_events matches C spec t [] q eq_refl) as Hre. fold evs in Hre.
+      destruct Hq as [Hq|[Hq Hne]].
+      - apply HFp in Hq. destruct Hq as [Hq|[]]. destruct (proj2 Hre (or_introl Hq)) as [->|H]; [exfalso; eapply files_nonempty; [exact Hq|reflexivity]|exact H].
+      - apply HDp in Hq. destruct Hq as [Hq|[]]. destruct (proj2 Hre (or_intror Hq)) as [->|H]; [congruence|exact H]. }
+    (* the tree after the run and its loaded history *)
+    assert (Eold : get_hist C t [] = None) by reflexivity. rewrite Eold, h0_chain in Ht. cbn [h_files app] in Ht.
+    set (newh := mkHist C [mkMfile C (g_no doc) (ser doc) doc] (Some [mkCentry (g_no doc) (g_no doc) (cdig (ser doc))])) in *.
+    assert (Et' : fst (create_folder Hb matches C cdig ser t req no_dh false ip ifl) = Dir (Some newh) kids) by (rewrite Ht; reflexivity).
+    rewrite Et'. clear Ht Et' Hw.
+    set (h1 := lhist_of C [] None (Some newh)).
+    assert (Hl1 : load C cdig (Dir (Some newh) kids) = inl [h1]).
+    { rewrite load_dir. unfold newh at 1. unfold check_chain, check_entries. cbn [h_chain h_files find mf_no ce_file mf_content ce_digest].
+      rewrite N.eqb_refl, text_eqb_refl, Ec. reflexivity. }
+    assert (Hgens : lh_gens h1 = [doc]) by reflexivity.
+    assert (Hroot1 : lh_root h1 = []) by reflexivity.
+    (* the effective patterns of the verify run are those of the create run *)
+    assert (Hspec : set_patterns (latest_patterns (lh_gens (root_hist [h1]))) [] (pattern_file_lines []) = spec).
+    { change (root_hist [h1]) with h1. rewrite Hgens. cbn [latest_patterns rev app pattern_file_lines filter].
+      unfold doc at 1. rewrite new_doc_patterns, h0_fresh. cbn [latest_patterns rev].
+      unfold spec. rewrite h0_fresh. cbn [latest_patterns rev].
+      destruct (set_patterns_stable ip (pattern_file_lines ifl)) as [E1 E2]. cbn zeta in E1, E2. rewrite E1. exact E2. }
+    apply (consistent_verifies Hb matches C cdig (Dir (Some newh) kids) [h1] [] [] Hl1).
+    { change (root_hist [h1]) with h1. rewrite Hgens. discriminate. }
+    rewrite Hspec. unfold consistent_tree. rewrite (events_ignore_history spec [] (Some newh) None kids). fold t. fold evs.
+    assert (Hprev : forall r', In r' (g_records doc) -> r_prev r' = None).
+    { intros r' Hr'. rewrite Hrecs in Hr'. rewrite Forall_forall in Hg. apply (Hg r' Hr'). }
+    split.
+    - (* every visited file has its original digest as reference *)
+      intros p c Hpc. unfold reference. change (root_hist [h1]) with h1.
+      assert (Hrt : route [h1] h1 p = h1) by (unfold route; cbn [fold_left]; unfold better; rewrite Nat.ltb_irrefl, andb_false_r; reflexivity).
+      rewrite Hrt, Hroot1, Hgens. cbn [strip_prefix fold_left].
+      assert (Hsp : strip_prefix [] p = p) by (destruct p; reflexivity). rewrite ?Hsp.
+      destruct (Hc p c (proj2 (HF' (p, c)) Hpc)) as [r [e0 [Hr [Hrp [He0 Ho0]]]]]. rewrite <- Hrecs in Hr.
+      assert (Hps : prev_step p doc = p).
+      { unfold prev_step. destruct (find _ (g_records doc)) as [r'|] eqn:Ef; [|reflexivity]. apply find_some in Ef. rewrite (Hprev r' (proj1 Ef)). reflexivity. }
+      rewrite Hps. cbn [find_original].
+      assert (Hfm : find_media_hash doc p = Some r).
+      { unfold find_media_hash. rewrite (find_last_unique (fun r0 => rec_keys_match r0 p) (g_records doc) r Hr).
+        - reflexivity.
+        - unfold rec_keys_match. rewrite Hrp, path_eqb_refl. reflexivity.
+        - intros r' Hr' Hk. unfold rec_keys_match in Hk. rewrite (Hprev r' Hr') in Hk. cbn [opt_path_eqb] in Hk. rewrite orb_false_r in Hk.
+          apply path_eqb_eq in Hk.
+          apply (NoDup_key_inj r_path (g_records doc)); auto. congruence. }
+      rewrite Hfm. destruct (find is_original (r_entries r)) as [e|] eqn:Efo.
+      + apply find_some in Efo. destruct Efo as [Hein Heo]. exists e. split; [reflexivity|].
+        rewrite Forall_forall in Hg. rewrite Hrecs in Hr. destruct (Hg r Hr) as [_ Hge]. destruct (Hge e Hein Heo) as [c' [Hc' Hd]].
+        rewrite Hrp in Hc'. apply HF' in Hc'. rewrite (ev_files_functional matches C spec t p c c' Hwf Hpc Hc'). exact Hd.
+      + exfalso. eapply find_none in Efo; [|exact He0]. congruence.
+    - (* nothing recorded is missing *)
+      assert (Hexp : forall q, In q (expected_paths [h1]) -> In q (visited evs)).
+      { intros q Hq. unfold expected_paths in Hq. apply (dedup_by_In path_eqb path_eqb_spec) in Hq. destruct Hq as [Hq _].
+        apply in_map_iff in Hq. destruct Hq as [q0 [Hren Hq0]].
+        assert (Hrm : rename_map [h1] = []).
+        { unfold rename_map. cbn [flat_map]. rewrite Hgens. cbn [flat_map]. rewrite !app_nil_r.
+          assert (Hz : forall l, (forall r', In r' l -> r_prev r' = None) ->
+                    flat_map (fun r => match r_prev r with Some q => [(lh_root h1 ++ q, lh_root h1 ++ r_path r)] | None => [] end) l = []).
+          { induction l as [|a l IHl]; intros H; [reflexivity|]. cbn [flat_map]. rewrite (H a (or_introl eq_refl)). apply IHl. intros r' Hr'. apply H. right. exact Hr'. }
+          apply Hz. exact Hprev. }
+        unfold renamed in Hren. rewrite Hrm in Hren. cbn in Hren. subst q0.
+        unfold recorded_paths in Hq0. cbn [flat_map] in Hq0. rewrite Hgens, Hroot1 in Hq0. cbn [flat_map app] in Hq0. rewrite !app_nil_r in Hq0.
+        apply Hpaths. exact Hq0. }
+      assert (Hdiff : diff_paths (expected_paths [h1]) (visited evs) = []).
+      { unfold diff_paths. induction (expected_paths [h1]) as [|q l IH]; [reflexivity|]. cbn [filter].
+        assert (Hm : mem_path q (visited evs) = true) by (apply mem_path_In; apply Hexp; left; reflexivity). rewrite Hm. cbn [negb].
+        apply IH. intros q' Hq'. apply Hexp. right. exact Hq'. }
+      rewrite Hdiff. reflexivity.
+  Qed.
+End FreshMain.
